@@ -4,7 +4,6 @@
 
 use minidump_writer::maps_reader::{MappingInfo, SystemMappingInfo};
 use minidump_writer::ptrace_dumper::PtraceDumper;
-use minidump_writer::verif_api::AuxvDumpInfo;
 use procfs_core::process::MMPermissions;
 use std::cell::RefCell;
 
@@ -20,7 +19,7 @@ pub fn with_dumper<R>(f: impl FnOnce(&mut PtraceDumper, i32) -> R) -> R {
             let dumper = PtraceDumper::new_report_soft_errors(
                 pid,
                 std::time::Duration::from_millis(1000),
-                AuxvDumpInfo::default(),
+                minidump_writer::minidump_writer::DirectAuxvDumpInfo::default().into(),
                 error_graph::strategy::DontCare,
             )
             .expect("PtraceDumper for idle child");
